@@ -116,10 +116,12 @@ fn run_in_second_realm(sabotage: &str, p: &str) -> Trace {
         install_realm_api(&mut ctx);
         let r = ctx.eval(Source::from_bytes(p.as_bytes()));
         let mut comp = classify(&r, p);
-        if let Err(e) = ctx.run_jobs() {
-            let c2 = crate::run::throw_class(&e);
-            if c2.is_internal_failure() || c2.is_limit() {
-                comp = c2;
+        if !matches!(comp, Completion::Throw(_) | Completion::EarlySyntaxError) {
+            if let Err(e) = ctx.run_jobs() {
+                let c2 = crate::run::throw_class(&e);
+                if c2.is_internal_failure() || c2.is_limit() {
+                    comp = c2;
+                }
             }
         }
         comp
@@ -141,7 +143,7 @@ const REALM_VALUES: &[&str] = &[
 const REALM_PROBES: &[&str] = &[
     "Object.getPrototypeOf(X) === Array.prototype", "X instanceof Array", "Array.isArray(X)", "X instanceof Object", "X instanceof Function", "X instanceof Error", "typeof X",
     "X && X.constructor === Array", "X && X.constructor === Object", "X && X.constructor === Function", "Object.prototype.toString.call(X)", "X && X.constructor && X.constructor.name",
-    "(function () { try { return X() } catch (e) { return e instanceof TypeError ? 'own TypeError' : (e && e.constructor && e.constructor.name === 'TypeError') ? 'foreign TypeError' : 'other' } })()",
+    "(function () { try { X(); return 'no throw' } catch (e) { return e instanceof TypeError ? 'own TypeError' : (e && e.constructor && e.constructor.name === 'TypeError') ? 'foreign TypeError' : 'other' } })()",
     "(function () { try { return typeof X() } catch (e) { return 'threw ' + (e instanceof Error) } })()",
     "(function () { try { var r = new X(2); return [r instanceof Array, Array.isArray(r), r instanceof X] } catch (e) { return 'threw ' + (e instanceof TypeError) } })()",
     "(function () { try { if (!Array.isArray(X)) return 'not an array'; var r = X.map(function (v) { return v }); return [r instanceof Array, Array.isArray(r), Object.getPrototypeOf(r) === Array.prototype] } catch (e) { return 'threw ' + (e instanceof TypeError) } })()",
@@ -236,7 +238,16 @@ impl C20 {
                 _ => prog::generate(part, prog::Opts::core()).src,
             });
         }
+        if std::env::var_os("BV_C20_TRACE").is_some() {
+            for (i, h) in hist.iter().enumerate() {
+                let _ = std::fs::write(format!("/tmp/c20_hist_{i}.js"), h);
+            }
+            eprintln!("c20: base ok, running {} history programs", hist.len());
+        }
         let after = run_after_contexts(&hist, src);
+        if std::env::var_os("BV_C20_TRACE").is_some() {
+            eprintln!("c20: history ok");
+        }
         if let Some((sig, d)) = diff_traces("fresh-thread-state", &base, "after-other-contexts", &after) {
             return CaseOut::fail(src.to_string(), format!("after-contexts: {sig}"), d);
         }
@@ -334,8 +345,5 @@ impl Prop for C20 {
         } else {
             Some(self.check_determinism(rendered, rendered.as_bytes(), 3, vec![]))
         }
-    }
-    fn rendered_prefix_lines(&self, _r: &str) -> usize {
-        0
     }
 }
